@@ -18,6 +18,7 @@
 import Upnp.Lemmas.C15Burst
 import Upnp.Lemmas.C15Handlers
 import Upnp.Lemmas.C15Device
+import Upnp.Lemmas.C15Judge
 namespace Upnp.C15
 
 /-- The key arithmetic read from `EventSubscriber.get_next_seq` (regenerated from the source on
@@ -134,6 +135,48 @@ theorem no_overdue_timer (m : State) (j : Mon) (dt : Nat) (h : Rel m j) (hn : j.
       (step m (.adv dt)).1.now < f := by
   intro i v f hv hf
   exact ((step_ok m j (.adv dt) h hn).vars i v hv).dfr f hf |>.2.2.2
+
+/-- **What acceptance means for moderation** (any trace, the implementation's included): if the judge accepts
+    a trace in which variable x triggers an event at t1 and later at t2, the two are at least x's moderation
+    interval apart — "at most one event per variable per moderation interval". -/
+theorem accepted_moderation (ev : List Bool) (rate : List Nat) (dflt : List (Option Val))
+    (pre mid post : List Item) (x : Nat) (t1 t2 : Int)
+    (h : ok ev rate dflt (pre ++ Item.obs (.trig x t1) :: (mid ++ Item.obs (.trig x t2) :: post)) = true) :
+    t1 + (rate.getD x 0 : Int) ≤ t2 := by
+  unfold ok at h
+  have h := close_ok_mono _ h
+  rw [List.foldl_append, List.foldl_cons, List.foldl_append, List.foldl_cons] at h
+  -- names for the monitor states along the trace
+  obtain ⟨jp, hjp⟩ : ∃ j, j = pre.foldl Mon.step (Mon.init ev rate dflt) := ⟨_, rfl⟩
+  rw [← hjp] at h
+  obtain ⟨jm, hjm⟩ : ∃ j, j = mid.foldl Mon.step (jp.step (.obs (.trig x t1))) := ⟨_, rfl⟩
+  rw [← hjm] at h
+  have hB : (jm.step (.obs (.trig x t2))).ok = true := foldl_ok_mono post _ h
+  have hm : jm.ok = true := step_ok_mono _ _ hB
+  have hA : (jp.step (.obs (.trig x t1))).ok = true := by rw [hjm] at hm; exact foldl_ok_mono mid _ hm
+  have hp : jp.ok = true := step_ok_mono _ _ hA
+  have cp : ClockInv rate jp := by
+    rw [hjp]
+    exact ClockInv.foldl pre _ ⟨Int.le_refl _, rfl⟩ (by rw [← hjp]; exact hp)
+  -- the first trigger
+  have hA' : (jp.onObs (.trig x t1)).ok = true := hA
+  simp only [Mon.onObs, Bool.and_eq_true, timeOk, decide_eq_true_eq] at hA'
+  obtain ⟨⟨_, _, ht2⟩, _, hmatch⟩ := hA'
+  have hlt : x < jp.lastTrig.length := by
+    cases hl : jp.lastTrig[x]? with
+    | none => rw [hl] at hmatch; cases hmatch
+    | some _ => exact (List.getElem?_eq_some_iff.mp hl).1
+  have ia : TrigInv rate x t1 (jp.step (.obs (.trig x t1))) :=
+    ⟨ht2, cp.rate, ⟨t1, by show (jp.lastTrig.set x (some t1))[x]? = _; rw [List.getElem?_set_self hlt],
+      Int.le_refl _, Int.le_refl _⟩⟩
+  have im : TrigInv rate x t1 jm := by
+    rw [hjm]; exact TrigInv.foldl mid _ ia (by rw [← hjm]; exact hm)
+  obtain ⟨u, hu, hu1, _⟩ := im.last
+  -- the second trigger
+  have hB' : (jm.onObs (.trig x t2)).ok = true := hB
+  simp only [Mon.onObs, Bool.and_eq_true, hu, decide_eq_true_eq, im.rate] at hB'
+  have := hB'.2.2
+  omega
 
 /-! ### non-vacuity: a concrete history with a burst inside a moderation interval, a second subscriber whose
     initial delivery is still in flight when a variable changes, an expiry and a timer firing; the theorem's
